@@ -9,7 +9,7 @@ LEVEL_NOTE = ("Trusted base: Go compiler/runtime; the vx source transformer (str
 # id -> (level, technique, text, design_ref)
 CHECKS = {
  "C01": ("fault_enumeration", "exhaustive fate-vector enumeration over two real KCP cores with a prefix oracle after every read",
-         "Every assignment of {deliver, drop, duplicate, reorder, delay past RTO} to the first K datagrams (both directions) of a transfer between two real KCP state machines, "
+         "Every assignment of {deliver, drop, duplicate, reorder, delay past RTO} to the first K datagrams (both directions) of a transfer between two real KCP state machines and between a real client/listener session pair (cipher x FEC x mode covering grid; plus every schedule within the deviation bound on the loss-free run), "
          "for a grid of driving mode x stream/message x window x MTU x nodelay x write pattern, with the bytes/messages read compared against the bytes/messages accepted after every Recv.",
          "DESIGN.md 5 C01"),
  "C02": ("fault_enumeration", "exhaustive fate-vector and outage enumeration with a drained-before-virtual-horizon oracle",
@@ -38,6 +38,26 @@ CHECKS = {
          "All abstract states (capacity, head, length) with length <= L reachable from NewRingBuffer(0,1,8,9,16) are enumerated to fixpoint and every operation "
          "of the alphabet is applied in each, compared with a slice-backed queue incl. raw-slot zeroing; plus every head position for capacities around the 1024 growth threshold.",
          "DESIGN.md 5 C20"),
+ "C08": ("exploration", "complete enumeration of the length space against independently built references; interleaving exploration of concurrent callers",
+         "All 13 BlockCrypt ciphers x every length 0..1500 x in-place/out-of-place x 3 patterns x 2 keys against crypto/cipher CFB (fixed IV), x/crypto salsa20, pbkdf2 XOR table, copy; "
+         "AES-GCM seal/open inside a 1500-byte buffer for every plaintext length; 3 concurrent callers on one BlockCrypt with every block-cipher call a scheduling point, all interleavings within the preemption bound.",
+         "DESIGN.md 5 C08"),
+ "C09": ("exploration", "independent README-derived decoder applied to every datagram of exhaustively enumerated session executions",
+         "Every datagram either end of a real session pair hands to the virtual PacketConn, for every fate vector over the first K datagrams and every cipher x FEC x mode configuration, is decoded by a decoder that imports nothing from kcp: "
+         "layout, CRC/tag, FEC type/position/order, Reed-Solomon parity of complete groups, nonce and datagram uniqueness, and the stream reassembled from the wire alone equals what was written; 2^20 draws of the real entropy source are distinct.",
+         "DESIGN.md 5 C09"),
+ "C10": ("exploration", "exhaustive enumeration of an MTU boundary alphabet x history positions x overhead classes on the real session and core",
+         "len of every buffer at WriteTo <= session MTU over MTU x cipher x FEC classes and all fate vectors; SetMtu(v) for a boundary alphabet at four positions of a traffic history (incl. concurrently, with loss) on the session, "
+         "and at three positions on the raw core; accepted => no panic, bound holds from then on, transfer completes; refused => only when unusable.",
+         "DESIGN.md 5 C10"),
+ "C13": ("model_checking", "stateless DFS over thread interleavings of the real session/listener code on a controlled scheduler with virtual time, iterated preemption bound, happens-before state caching",
+         "36 timed scripts (data, acks, deadline none->set / later / earlier / zero->set / past, Close, socket errors; 1-3 blocked callers of Read/Write/Accept) x both timer-channel semantics; every interleaving within the preemption bound "
+         "(switches at blocking points and select ties free); each call must return with the scripted outcome inside its virtual-time window (never before the effective deadline, not later than the instant it is due).",
+         "DESIGN.md 5 C13"),
+ "C15": ("model_checking", "stateless DFS with closers released at any scheduling point; leak and pool-ownership oracles",
+         "Session pairs mid-transfer; closers for client, accepted session and listener (several orders) lurk and may be released at any scheduling point or at chosen virtual instants; afterwards every library goroutine must have exited, "
+         "no timer may stay armed, and the pool sanitizer (double recycle, foreign buffer, write-after-recycle by poison; quarantine and eager-reuse modes) must stay silent.",
+         "DESIGN.md 5 C15"),
 }
 NOT_YET = {}
 
